@@ -1,7 +1,346 @@
-//! Implementation-side evaluator for the `reader` correspondence checks (see props/).
+//! Implementation-side evaluator for the `reader` correspondence checks (C16, hook H7).
+//!
+//! mode "fused": the real `FusedBufReader<R>` over a scripted in-memory `AsyncRead`
+//!   script items: ["c", hex] chunk | ["g", seed, size] seeded chunk | ["p"] Pending (self-waking)
+//!                 | ["e"] zero-length read | ["x"] read error; an exhausted script reads as EOF.
+//!   `calls` = number of `fill_buf().await` calls. Result: state after every call.
+//! mode "split" / "combined": the real `ChildAccumulator` (`ChildFds::fill_buf`, select! over both
+//!   readers; tokio pipes / tokio File) over OS pipes whose write ends the harness holds.
+//!   ops: ["w", s, hex] | ["g", s, seed, size] write to stream s (0 stdout, 1 stderr)
+//!        | ["c", s] close the write end of s | ["r", k] up to k fill_buf calls (only while a call
+//!        can complete according to the harness's own byte count) | ["d"] drain (same, unbounded).
+//!   Result: state after every fill_buf call, final (frozen) state.
 use serde_json::{json, Value};
+use std::{
+    collections::VecDeque,
+    io::{self, Write},
+    pin::Pin,
+    sync::OnceLock,
+    task::{Context, Poll},
+    time::Duration,
+};
+use tokio::io::{AsyncRead, ReadBuf};
+
+/// a call that can complete does so at once; this only bounds a broken implementation
+const HANG: Duration = Duration::from_secs(5);
+/// after this many hung cases the remaining cases of the process are not run
+static HANGS: std::sync::atomic::AtomicUsize = std::sync::atomic::AtomicUsize::new(0);
+
+use nextest_runner::verif_imp::{VerifAccState, VerifAccumulator, VerifFusedReader, VERIF_CHUNK_SIZE};
+
+/// xorshift64* byte stream, identical to e2e/puppet.py `prng_bytes` and Model/Capture.v `prng_bytes`.
+pub fn prng_bytes(seed: u64, n: usize) -> Vec<u8> {
+    let mut out = Vec::with_capacity(n + 8);
+    let mut x = seed
+        .wrapping_mul(2654435761)
+        .wrapping_add(88172645463325252);
+    if x == 0 {
+        x = 1;
+    }
+    while out.len() < n {
+        x ^= x >> 12;
+        x ^= x << 25;
+        x ^= x >> 27;
+        out.extend_from_slice(&x.wrapping_mul(2685821657736338717).to_le_bytes());
+    }
+    out.truncate(n);
+    out
+}
+
+fn unhex(s: &str) -> Vec<u8> {
+    (0..s.len() / 2)
+        .map(|i| u8::from_str_radix(&s[2 * i..2 * i + 2], 16).expect("hex"))
+        .collect()
+}
+
+fn hex(b: &[u8]) -> String {
+    b.iter().map(|x| format!("{x:02x}")).collect()
+}
+
+fn digest(b: &[u8]) -> Value {
+    // (sum of bytes, sum of running sums): the cheap order-sensitive checksum the model computes
+    let (mut s1, mut s2) = (0u128, 0u128);
+    for &x in b {
+        s1 += x as u128;
+        s2 += s1;
+    }
+    let mut v = json!({
+        "len": b.len(),
+        "xxh64": xxhash_rust::xxh64::xxh64(b, 0).to_string(),
+        "s1": s1.to_string(),
+        "s2": s2.to_string(),
+    });
+    if b.len() <= 64 {
+        v["hex"] = json!(hex(b));
+    }
+    v
+}
+
+// ---------------------------------------------------------------------------------- fused
+
+enum Item {
+    Chunk(Vec<u8>),
+    Pending,
+    Eof,
+    Err,
+}
+
+struct Scripted {
+    items: VecDeque<Item>,
+    polls: usize,
+    max_buf: usize,
+}
+
+impl AsyncRead for Scripted {
+    fn poll_read(
+        mut self: Pin<&mut Self>,
+        cx: &mut Context<'_>,
+        buf: &mut ReadBuf<'_>,
+    ) -> Poll<io::Result<()>> {
+        self.polls += 1;
+        self.max_buf = self.max_buf.max(buf.remaining());
+        match self.items.pop_front() {
+            None | Some(Item::Eof) => Poll::Ready(Ok(())),
+            Some(Item::Pending) => {
+                cx.waker().wake_by_ref();
+                Poll::Pending
+            }
+            Some(Item::Err) => Poll::Ready(Err(io::Error::other("verif: injected read error"))),
+            Some(Item::Chunk(b)) => {
+                let n = b.len().min(buf.remaining());
+                buf.put_slice(&b[..n]);
+                if n < b.len() {
+                    self.items.push_front(Item::Chunk(b[n..].to_vec()));
+                }
+                Poll::Ready(Ok(()))
+            }
+        }
+    }
+}
+
+fn parse_item(v: &Value) -> Item {
+    match v[0].as_str().unwrap_or("") {
+        "c" => Item::Chunk(unhex(v[1].as_str().unwrap_or(""))),
+        "g" => Item::Chunk(prng_bytes(
+            v[1].as_u64().unwrap_or(0),
+            v[2].as_u64().unwrap_or(0) as usize,
+        )),
+        "p" => Item::Pending,
+        "e" => Item::Eof,
+        "x" => Item::Err,
+        other => panic!("unknown script item {other:?}"),
+    }
+}
+
+fn run_fused(case: &Value) -> Value {
+    let items: VecDeque<Item> = case["script"]
+        .as_array()
+        .map(|a| a.iter().map(parse_item).collect())
+        .unwrap_or_default();
+    let calls = case["calls"].as_u64().unwrap_or(0);
+    let rt = tokio::runtime::Builder::new_current_thread()
+        .enable_all()
+        .build()
+        .expect("runtime");
+    rt.block_on(async move {
+        let mut r = VerifFusedReader::new(Scripted {
+            items,
+            polls: 0,
+            max_buf: 0,
+        });
+        let mut trace = Vec::new();
+        let mut hang = false;
+        for _ in 0..calls {
+            match tokio::time::timeout(HANG, r.fill_buf()).await {
+                Ok(res) => trace.push(json!([r.acc().len(), r.is_done(), res.is_err()])),
+                Err(_) => {
+                    hang = true;
+                    break;
+                }
+            }
+        }
+        json!({
+            "trace": trace,
+            "acc": digest(r.acc()),
+            "done": r.is_done(),
+            "hang": hang,
+            "chunk_size": VERIF_CHUNK_SIZE,
+        })
+    })
+}
+
+// ---------------------------------------------------------------------------------- pipes
+
+/// true if a fresh pipe takes 64 KiB without a reader (the Linux default capacity)
+fn big_pipes() -> bool {
+    static BIG: OnceLock<bool> = OnceLock::new();
+    *BIG.get_or_init(|| {
+        let Ok((r, mut w)) = io::pipe() else {
+            return false;
+        };
+        let (tx, rx) = std::sync::mpsc::channel();
+        std::thread::spawn(move || {
+            let ok = w.write_all(&vec![0u8; 65536]).is_ok();
+            let _ = tx.send(ok);
+        });
+        let ok = matches!(rx.recv_timeout(Duration::from_secs(3)), Ok(true));
+        drop(r); // unblocks the writer with EPIPE if it is still blocked
+        ok
+    })
+}
+
+fn st_json(st: &VerifAccState) -> Value {
+    let d = |o: &Option<Vec<u8>>| o.as_ref().map(|b| digest(b)).unwrap_or(Value::Null);
+    json!({
+        "stdout": d(&st.stdout), "stderr": d(&st.stderr), "combined": d(&st.combined),
+        "stdout_done": st.stdout_done, "stderr_done": st.stderr_done,
+        "combined_done": st.combined_done, "all_done": st.all_done, "errors": st.errors,
+    })
+}
+
+fn step_json(op: usize, st: &VerifAccState) -> Value {
+    let l = |o: &Option<Vec<u8>>| o.as_ref().map(|b| b.len());
+    json!([op, l(&st.stdout), st.stdout_done, l(&st.stderr), st.stderr_done, l(&st.combined), st.combined_done])
+}
+
+fn run_pipes(case: &Value, combined: bool) -> Value {
+    let capture = [
+        case["capture"][0].as_bool().unwrap_or(true),
+        case["capture"][1].as_bool().unwrap_or(true),
+    ];
+    let limit: usize = if big_pipes() { 65536 } else { 4096 };
+    let ops = case["ops"].as_array().cloned().unwrap_or_default();
+    let rt = tokio::runtime::Builder::new_current_thread()
+        .enable_all()
+        .build()
+        .expect("runtime");
+    let out = rt.block_on(async move {
+        // writers[s]: the write end the "test process" holds for stream s
+        let mut writers: [Option<io::PipeWriter>; 2] = [None, None];
+        let mut acc = if combined {
+            let (r, w) = io::pipe().expect("pipe");
+            writers[1] = Some(w.try_clone().expect("dup"));
+            writers[0] = Some(w);
+            VerifAccumulator::new_combined(r.into())
+        } else {
+            let mut fds = [None, None];
+            for s in 0..2 {
+                if capture[s] {
+                    let (r, w) = io::pipe().expect("pipe");
+                    writers[s] = Some(w);
+                    fds[s] = Some(std::os::fd::OwnedFd::from(r));
+                }
+            }
+            let [o, e] = fds;
+            VerifAccumulator::new_split(o, e).expect("from_std")
+        };
+        // the harness's own count: bytes written per pipe (combined: pipe 0)
+        let mut written = [0usize; 2];
+        let mut trace = Vec::new();
+        let mut hang = false;
+        let mut error: Option<String> = None;
+
+        let can_progress = |st: &VerifAccState, written: &[usize; 2], writers: &[Option<io::PipeWriter>; 2]| {
+            if combined {
+                let got = st.combined.as_ref().map_or(0, |b| b.len());
+                !st.combined_done.unwrap_or(true)
+                    && (written[0] > got || (writers[0].is_none() && writers[1].is_none()))
+            } else {
+                let one = |acc: &Option<Vec<u8>>, done: Option<bool>, s: usize| {
+                    acc.is_some()
+                        && !done.unwrap_or(true)
+                        && (written[s] > acc.as_ref().map_or(0, |b| b.len()) || writers[s].is_none())
+                };
+                one(&st.stdout, st.stdout_done, 0) || one(&st.stderr, st.stderr_done, 1)
+            }
+        };
+
+        'ops: for (op_idx, op) in ops.iter().enumerate() {
+            match op[0].as_str().unwrap_or("") {
+                k @ ("w" | "g") => {
+                    let s = op[1].as_u64().unwrap_or(0) as usize;
+                    let data = if k == "w" {
+                        unhex(op[2].as_str().unwrap_or(""))
+                    } else {
+                        prng_bytes(op[2].as_u64().unwrap_or(0), op[3].as_u64().unwrap_or(0) as usize)
+                    };
+                    let p = if combined { 0 } else { s };
+                    let st = acc.state();
+                    let got = if combined {
+                        st.combined.as_ref().map_or(0, |b| b.len())
+                    } else if s == 0 {
+                        st.stdout.as_ref().map_or(0, |b| b.len())
+                    } else {
+                        st.stderr.as_ref().map_or(0, |b| b.len())
+                    };
+                    if written[p] - got.min(written[p]) + data.len() > limit {
+                        error = Some("script overfills the pipe".into());
+                        break 'ops;
+                    }
+                    if let Some(w) = writers[s].as_mut() {
+                        if !data.is_empty() {
+                            w.write_all(&data).expect("pipe write");
+                        }
+                        written[p] += data.len();
+                    }
+                }
+                "c" => {
+                    let s = op[1].as_u64().unwrap_or(0) as usize;
+                    writers[s] = None;
+                }
+                k @ ("r" | "d") => {
+                    let mut left = if k == "r" { op[1].as_u64().unwrap_or(0) } else { 1_000_000 };
+                    while left > 0 && can_progress(&acc.state(), &written, &writers) {
+                        left -= 1;
+                        match tokio::time::timeout(HANG, acc.fill_buf()).await {
+                            Ok(()) => trace.push(step_json(op_idx, &acc.state())),
+                            Err(_) => {
+                                hang = true;
+                                break 'ops;
+                            }
+                        }
+                    }
+                }
+                other => {
+                    error = Some(format!("unknown op {other:?}"));
+                    break 'ops;
+                }
+            }
+        }
+        let snapshot = st_json(&acc.state());
+        // every write end is closed before the accumulator is dropped so that a blocking read
+        // tokio's File may still have in flight (combined mode) returns
+        writers = [None, None];
+        let _ = &writers;
+        let frozen = st_json(&acc.freeze());
+        json!({
+            "trace": trace, "final": snapshot, "frozen": frozen, "hang": hang, "error": error,
+            "written": written, "chunk_size": VERIF_CHUNK_SIZE, "pipe_limit": limit,
+        })
+    });
+    rt.shutdown_timeout(Duration::from_secs(5));
+    out
+}
 
 pub fn run(case: &Value) -> Value {
-    let _ = case;
-    json!({ "error": "not implemented" })
+    use std::sync::atomic::Ordering;
+    if HANGS.load(Ordering::Relaxed) >= 3 {
+        return json!({ "error": "skipped: three earlier cases hung", "hang": true });
+    }
+    let res = run_inner(case);
+    if res["hang"].as_bool() == Some(true) {
+        HANGS.fetch_add(1, Ordering::Relaxed);
+    }
+    res
+}
+
+fn run_inner(case: &Value) -> Value {
+    match case["mode"].as_str().unwrap_or("") {
+        "fused" => run_fused(case),
+        "split" => run_pipes(case, false),
+        "combined" => run_pipes(case, true),
+        "prng" => json!({ "hex": hex(&prng_bytes(
+            case["seed"].as_u64().unwrap_or(0), case["size"].as_u64().unwrap_or(0) as usize)) }),
+        other => json!({ "error": format!("unknown mode {other:?}") }),
+    }
 }
